@@ -264,6 +264,10 @@ impl Property for C03 {
                 }
                 // in half of the cases the records are dual-stack (an IPv6 socket nobody listens at)
                 cfg.dual_records = cfg.seqs.get(1).map(|s| s % 2 == 0).unwrap_or(false);
+                // in a third of the cases V's session cache holds ONE session (a new one evicts the other)
+                if cfg.seqs.get(3).map(|s| *s == 1).unwrap_or(false) {
+                    cfg.v_session_capacity = Some(1);
+                }
                 Case { cfg, ops }
             })
             .boxed()
@@ -275,7 +279,7 @@ impl Property for C03 {
         rep
     }
     fn rule() -> String {
-        "schedules (<=40 quick / <=100 thorough ops) of honest exchanges in both directions between 2..4 real handlers with restarts (so that several handshakes and WHOAREYOUs exist in the log), plus re-injection of ANY logged datagram at any later point (duplicate before completion, after completion, after the challenge timeout, while a new challenge is outstanding) from the original source, another honest peer's address or an attacker address, and forged WHOAREYOUs echoing the nonce of an in-flight request, of a completed one, of one in flight to another address, or a random nonce. Ledger of WHOAREYOUs each node emitted: a session may appear / be re-keyed (or Established be reported) on a handshake packet only if an unconsumed WHOAREYOU of that node to exactly (id, source address) exists that is not older than the challenge timeout since its last (re-)arming, and each WHOAREYOU accounts for one acceptance; a node emits a (new) handshake packet only in a step in which it received a WHOAREYOU echoing the nonce of a request in flight to that source address; per request id at most one distinct handshake packet. Non-trivial = a replayed handshake/WHOAREYOU arrived when its challenge/request was no longer outstanding.".into()
+        "schedules (<=40 quick / <=100 thorough ops) of honest exchanges in both directions between 2..4 real handlers with restarts (so that several handshakes and WHOAREYOUs exist in the log), plus re-injection of ANY logged datagram at any later point (duplicate before completion, after completion, after the challenge timeout, while a new challenge is outstanding) from the original source, another honest peer's address or an attacker address, and forged WHOAREYOUs echoing the nonce of an in-flight request (also by construction: for a request whose handshake is already out, also after the session that handshake created was evicted from a cache of one), of a completed one, of one in flight to another address, or a random nonce. Ledger of WHOAREYOUs each node emitted: a session may appear / be re-keyed (or Established be reported) on a handshake packet only if an unconsumed WHOAREYOU of that node to exactly (id, source address) exists that is not older than the challenge timeout since its last (re-)arming, and each WHOAREYOU accounts for one acceptance; a node emits a (new) handshake packet only in a step in which it received a WHOAREYOU echoing the nonce of a request in flight to that source address; per request id at most one distinct handshake packet. Non-trivial = a replayed handshake/WHOAREYOU arrived when its challenge/request was no longer outstanding.".into()
     }
     fn assumptions() -> Vec<String> {
         vec![
